@@ -38,6 +38,7 @@ type appWeights struct {
 	stake, edit, transfer, unstake, param, send int
 	unstakeSecs                                 []int
 	maxAppsSlack                                []int // MaxApplications = genesis apps + one of these
+	honestTransfer                              int   // out of 10 transfers, this many are drawn as clean ones (staked app -> key without record, own signature)
 }
 
 func genAppWorld(rt *rapid.T, wt appWeights) *appWorld {
@@ -198,7 +199,6 @@ func (w *appWorld) genTx(rt *rapid.T, n *chain.Node, v appView, wt appWeights) a
 	isStaked := func(r appRec, ok bool) bool { return ok && r.app.Status == sdk.Staked }
 	isUnstaking := func(r appRec, ok bool) bool { return ok && r.app.Status == sdk.Unstaking }
 	none := func(r appRec, ok bool) bool { return !ok }
-	any := func(r appRec, ok bool) bool { return ok }
 	min := v.params.AppStakeMin
 	switch pick(rt, "kind", wt.stake, wt.edit, wt.transfer, wt.unstake, wt.param, wt.send) {
 	case 0: // new stake (mostly keys without a record)
@@ -257,7 +257,12 @@ func (w *appWorld) genTx(rt *rapid.T, n *chain.Node, v appView, wt appWeights) a
 	case 2: // transfer
 		var from crypto.PrivateKey
 		lab := []string{}
-		switch pick(rt, "fromClass", 7, 1, 1) {
+		honest := uniformN(rt, "honestTransfer", 10) < wt.honestTransfer
+		fromW, toW, shapeW, signerW := []int{7, 1, 1}, []int{3, 3, 4, 1}, []int{10, 1, 1}, []int{7, 1, 1, 1}
+		if honest {
+			fromW, toW, shapeW, signerW = []int{1, 0, 0}, []int{1, 1, 0, 0}, []int{1, 0, 0}, []int{1, 0, 0, 0}
+		}
+		switch pick(rt, "fromClass", fromW...) {
 		case 0:
 			if p := v.keysWith(w.appKeys, isStaked); len(p) > 0 {
 				from = pickKey(rt, "from", p)
@@ -277,7 +282,7 @@ func (w *appWorld) genTx(rt *rapid.T, n *chain.Node, v appView, wt appWeights) a
 			from = pickKey(rt, "from", w.genesis)
 		}
 		var to crypto.PrivateKey
-		switch pick(rt, "toClass", 3, 3, 4, 1) {
+		switch pick(rt, "toClass", toW...) {
 		case 0:
 			to = pickKey(rt, "to", w.fresh)
 			lab = append(lab, "transfer-to-fresh-key")
@@ -301,7 +306,7 @@ func (w *appWorld) genTx(rt *rapid.T, n *chain.Node, v appView, wt appWeights) a
 			lab = append(lab, "transfer-to-fresh-key")
 		}
 		msg := &appsTypes.MsgStake{PubKey: to.PublicKey(), Chains: nil, Value: sdk.ZeroInt()}
-		switch pick(rt, "shape", 10, 1, 1) {
+		switch pick(rt, "shape", shapeW...) {
 		case 1:
 			msg.Chains = []string{"0001"}
 			lab = append(lab, "transfer-shape-with-chains")
@@ -310,7 +315,7 @@ func (w *appWorld) genTx(rt *rapid.T, n *chain.Node, v appView, wt appWeights) a
 			lab = append(lab, "transfer-shape-with-value")
 		}
 		signer, claimed := from, from
-		switch pick(rt, "signerClass", 7, 1, 1, 1) {
+		switch pick(rt, "signerClass", signerW...) {
 		case 1: // a stranger signs but presents the current application's public key
 			signer = pickKey(rt, "stranger", w.strangers)
 			lab = append(lab, "transfer-forged-pubkey", "transfer-wrong-signer")
@@ -324,7 +329,6 @@ func (w *appWorld) genTx(rt *rapid.T, n *chain.Node, v appView, wt appWeights) a
 				lab = append(lab, "transfer-signed-by-new-key", "transfer-wrong-signer")
 			}
 		}
-		_ = any
 		return appTx{kind: "transfer", msg: msg, signer: signer, claimed: claimed, labels: lab, bytes: w.signStake(msg, signer, claimed),
 			desc: fmt.Sprintf("appTransfer %s->%s value=%s chains=%d signed by %s claiming %s", w.dir.name(chain.Addr(from)), w.dir.name(chain.Addr(to)),
 				msg.Value, len(msg.Chains), w.dir.name(chain.Addr(signer)), w.dir.name(chain.Addr(claimed)))}
